@@ -653,3 +653,119 @@ def oracle_restart(evs, meta):
             if tid in old and e.f[0] == old[tid].f[2]:
                 return "a check authenticated with the pre-restart password was answered with a success response (%s)" % tid
     return None
+
+
+# ------------------------------------------------------------------ C20: gathering against scripted servers
+STUN_MODES = ["ok", "nat", "nat", "natlate", "nattwice", "silent", "garbage", "wrongtid", "err400", "err420", "err500", "err300", "err401", "err438"]
+TURN_MODES = ["ok", "ok", "twice", "silent", "garbage", "wrongtid", "err400", "err403", "err437", "err486", "err500", "err300", "turn438", "err401", "err438"]
+TURN_OK = ("ok", "twice")
+
+
+def gen_gather(rng, i):
+    nip = rng.choice([1, 1, 2])
+    ips = tuple("10.0.%d.%d" % (rng.randrange(0, 4), k + 1) for k in range(nip))
+    ncomp = rng.choice([1, 2])
+    ops = ["seed,%d" % rng.randrange(1, 1 << 30), "agent,0,0,1,0,%s" % ",".join(ips), "stream,0,%d" % ncomp]
+    drop = rng.choice([0, 0, 0, 0.2, 0.4])
+    ops.append("net,%s,%s,%d,%d,3" % (drop, rng.choice([0, 0.2]), rng.choice([1, 10]), rng.choice([10, 60, 150])))
+    if drop:
+        ops.append("srvloss,1")
+    stun = rng.choice([None, None] + STUN_MODES)
+    if stun and "late" in stun and drop:
+        stun = "nat"      # a 1.5 s late answer only beats the 2 s transaction timeout when it answers the first transmission
+    servers = []
+    if stun:
+        ops += ["server,10.9.0.1,3478,%s" % stun, "stun,0,10.9.0.1,3478"]
+        if stun == "err300":
+            ops += ["server,10.9.0.1,%d,%s" % (3479 + k, rng.choice(["err300", "nat"])) for k in range(3)]
+    turns = [rng.choice(TURN_MODES) for _ in range(rng.choice([0, 0, 1, 1, 2, 3]))]
+    for k, m in enumerate(turns):
+        ops.append("server,10.9.%d.1,3478,%s" % (k + 1, m))
+        if m == "err300":
+            ops += ["server,10.9.%d.1,%d,%s" % (k + 1, 3479 + j, rng.choice(["err300", "ok"])) for j in range(3)]
+        for c in range(1, ncomp + 1):
+            ops.append("relay,0,1,%d,10.9.%d.1,3478" % (c, k + 1))
+    ops += ["gather,0,1", "run,%d" % rng.choice([15000, 30000])]
+    ops += ["localcands,0,1,%d" % c for c in range(1, ncomp + 1)]
+    again = rng.random() < 0.3 and "err300" not in turns
+    turns2 = list(turns)
+    if again:
+        # relay servers added once gathering is over (e.g. to a component that failed): discovery runs again and completes again
+        if rng.random() < 0.4:
+            ops.append("restart,0")
+        m = rng.choice(TURN_MODES[:-1])
+        k = len(turns)
+        ops.append("server,10.9.%d.1,3478,%s" % (k + 1, m))
+        for c in range(1, ncomp + 1):
+            ops.append("relay,0,1,%d,10.9.%d.1,3478" % (c, k + 1))
+        turns2.append(m)
+        ops += ["run,20000"] + ["localcands,0,1,%d" % c for c in range(1, ncomp + 1)]
+    return "gath%d %s" % (i, " ".join(ops)), {"kind": "gather", "ncomp": ncomp, "ips": ips, "stun": stun, "turns": turns, "turns2": turns2, "again": again}
+
+
+def oracle_gather(evs, meta):
+    ips, ncomp, stun, turns = meta["ips"], meta["ncomp"], meta["stun"], meta["turns"]
+    gathers = [e for e in evs if e.kind == "api" and e.f[1] == "gather"]
+    first_done = next((e.t for e in evs if e.kind == "sig" and e.f[1] == "gathering-done"), None)
+    if first_done is not None:
+        late_relay = [e for e in evs if e.kind == "api" and e.f[1] == "set_relay_info" and e.t > first_done]
+        if late_relay:
+            gathers.append(late_relay[0])       # one more discovery round, started by the first late set_relay_info
+    dones = [e for e in evs if e.kind == "sig" and e.f[1] == "gathering-done"]
+    # completion: exactly once per gather call, in bounded time
+    items = len(ips) * ncomp * ((1 if stun else 0) + len(turns))
+    bound = 2000 * 2 + 40 * items + 2000 + 6 * 300     # 4xRTO (+ one authenticated retry round), pacing, "late" answers, round trips
+    phases = []
+    for k, g in enumerate(gathers):
+        if g.f[-1] != "=1":
+            return "nice_agent_gather_candidates returned FALSE"
+        nxt = gathers[k + 1].t if k + 1 < len(gathers) else 10 ** 12
+        d = [e for e in dones if g.t <= e.t < nxt or (e.t == g.t)]
+        d = [e for e in dones if g.t <= e.t and e.t < nxt]
+        if len(d) != 1:
+            return "gathering started at t=%d announced completion %d times" % (g.t, len(d))
+        if d[0].t - g.t > bound:
+            return "gathering started at t=%d completed only at t=%d (bound %d ms for %d discovery items)" % (g.t, d[0].t, bound, items)
+        phases.append((g.t, d[0].t, nxt))
+    # the candidates
+    for (t0, tdone, tnext) in phases:
+        for c in range(1, ncomp + 1):
+            lc = [e for e in evs if e.kind == "api" and e.f[1] == "local_candidates" and e.f[3] == str(c) and tdone <= e.t < tnext]
+            if not lc:
+                continue
+            cands = [x.split("/") for x in lc[0].f[5:]]
+            got = sorted((int(x[1]), x[3].rsplit(":", 1)[0], x[4].rsplit(":", 1)[0]) for x in cands)     # (type, ip, base ip)
+            exp = [(0, ip, ip) for ip in ips]
+            if stun and "nat" in stun:
+                for ip in ips:
+                    a, b, cc, e_ = ip.split(".")
+                    exp.append((1, "198.51.%s.%s" % (cc, e_), ip))
+            for k, m in enumerate(turns if t0 == phases[0][0] else meta["turns2"]):
+                if m in TURN_OK:
+                    exp.append((3, "10.9.%d.1" % (k + 1), None))
+            gs = sorted((t, ip) for t, ip, b in got)
+            es = sorted((t, ip) for t, ip, b in exp)
+            ok_redirect = (stun == "err300") or ("err300" in meta["turns2"])
+            if gs != es and not ok_redirect:
+                return "component %d: local candidates after completion are %s, the servers confirmed %s (stun=%s turn=%s)" % (c, gs, es, stun, turns)
+            if ok_redirect:
+                # alternate servers: at least the hosts, at most what a success-mode server could supply
+                if [g for g in gs if g[0] == 0] != [e for e in es if e[0] == 0]:
+                    return "component %d: host candidates %s, expected %s" % (c, gs, es)
+            for t, ip, b in got:
+                if t in (1, 3) and b not in ips:
+                    return "candidate of type %d with base %s which is not a local address" % (t, b)
+            # announced exactly once each
+            sig = [e.f[4] for e in evs if e.kind == "sig" and e.f[1] == "new-candidate" and e.f[3] == str(c) and t0 <= e.t <= tdone]
+            if len(sig) != len(set(sig)):
+                return "a candidate was announced twice: %s" % sig
+            allsig = [e.f[4] for e in evs if e.kind == "sig" and e.f[1] == "new-candidate" and e.f[3] == str(c) and e.t <= tdone]
+            if len(allsig) != len(set(allsig)):
+                return "a candidate was announced twice: %s" % allsig
+            sig = allsig
+            if sorted(x.split("/")[3] for x in sig) != sorted(x[3] for x in cands):
+                return "announced candidates %s differ from the list after completion %s" % (sorted(x.split("/")[3] for x in sig), sorted(x[3] for x in cands))
+            late = [e for e in evs if e.kind == "sig" and e.f[1] == "new-candidate" and e.f[3] == str(c) and tdone < e.t < tnext]
+            if late:
+                return "candidate announced after gathering-done: %s" % " ".join(late[0].f)
+    return None
